@@ -37,6 +37,7 @@ int cmd_c14(int argc, char **argv);
 int cmd_c03(int argc, char **argv);
 int cmd_c03e(int argc, char **argv);
 int cmd_c04(int argc, char **argv);
+int cmd_c04f(int argc, char **argv);
 int cmd_c02(int argc, char **argv);
 int cmd_c05(int argc, char **argv);
 int cmd_c12(int argc, char **argv);
